@@ -5,7 +5,7 @@
    (S) oracle: hand-written RFC 3629 recogniser + CPython's codec."""
 from __future__ import annotations
 import itertools, random
-import runner, coreutil
+import runner, coreutil, gen_core
 from coreutil import Scenario, server_frame, cut, reads, events
 import refcodec
 
@@ -72,9 +72,11 @@ def text_scenario(rng, payload, nfrag, ncuts, compress_negotiated=False, stop_af
 def gen_payload(rng):
     kind = rng.random()
     cps = []
-    for _ in range(rng.randint(0, 12)):
+    for k in range(rng.randint(0, 12)):
         r = rng.random()
-        if r < 0.4:
+        if (k == 0 and r < 0.2) or r < 0.04:
+            cps.append(rng.choice(gen_core.SPECIAL_CPS))      # leading U+FEFF, NUL, noncharacters, braces, percent, ...
+        elif r < 0.4:
             cps.append(rng.randint(0, 0x7f))
         elif r < 0.6:
             cps.append(rng.randint(0x80, 0x7ff))
@@ -177,6 +179,12 @@ def explore(res, tier, seed, model_ok=True):
         else:
             scs.append(text_scenario(rng, p, nfrag, ncuts, neg, ctrl_between=cb))
             meta.append((p, 'verdict', neg, cb))
+    # texts whose exact decoding is easily lost: leading / inner U+FEFF, NUL, noncharacters, format directives
+    for t in ('\ufeff', '\ufeffabc', 'a\ufeffb', '\ufeff\ufeff', '\x00', '\x00a\x00', '\uffff\ufffe', '{}', '{0} %s {x', '%', '\u2028\x85'):
+        p_ = t.encode('utf-8')
+        for nfrag, ncuts in ((1, 0), (2, 0), (1, 10 ** 6), (3, 3)):
+            scs.append(text_scenario(rng, p_, nfrag, ncuts, False, ctrl_between=(nfrag > 1)))
+            meta.append((p_, 'verdict', False, nfrag > 1))
     # targeted: a read that ends inside a multi-byte sequence, next read starts with the offending byte
     for lead in (b'\xc2', b'\xdf', b'\xe0', b'\xe0\xa0', b'\xe1\x80', b'\xed', b'\xed\x9f', b'\xef\xbf', b'\xf0', b'\xf0\x90', b'\xf0\x90\x80', b'\xf1\x80\x80', b'\xf4', b'\xf4\x8f\xbf'):
         for offending in (b'a', b' ', b'\xc2', b'\xff'):
